@@ -131,22 +131,36 @@ Proof.
   repeat split; reflexivity.
 Qed.
 
-Lemma exec_lineage_save_failed st c ar : s_mu st = None ->
-  s_log (exec ([MTarget c; MRead] ++ create_save_failed ar) st) = s_log st ++ [created_frame st ar].
+Lemma exec_lineage_save_failed_full st c ar : s_mu st = None ->
+  s_log (exec ([MTarget c; MRead] ++ create_save_failed ar) st) = s_log st ++ [created_frame st ar]
+  /\ s_next (exec ([MTarget c; MRead] ++ create_save_failed ar) st) = s_next st
+  /\ s_mu (exec ([MTarget c; MRead] ++ create_save_failed ar) st) = None
+  /\ s_fresh (exec ([MTarget c; MRead] ++ create_save_failed ar) st) = s_fresh st + 1 + 1
+  /\ s_tcnt (exec ([MTarget c; MRead] ++ create_save_failed ar) st) = s_tcnt st
+  /\ s_tmu (exec ([MTarget c; MRead] ++ create_save_failed ar) st) = s_tmu st.
 Proof.
   intro Hmu. unfold exec, create_save_failed, run. cbn [length repeat app].
   stp. stp. cbn [pop p_cid].
   destruct (replay_events _ c) as [res sd] eqn:Er.
-  assert (K : forall st1, s_log st1 = s_log st -> s_fresh st1 = s_fresh st -> s_mu st1 = None ->
+  assert (K : forall st1, s_log st1 = s_log st -> s_fresh st1 = s_fresh st -> s_mu st1 = None -> s_next st1 = s_next st ->
+     s_tcnt st1 = s_tcnt st -> s_tmu st1 = s_tmu st ->
      forall p1, p_rem p1 = [MLock; MAlloc; MLogAppendFixed 0 EContinuityCreated ar; MSidecar; MBcast; MIndexInsert; MUnlock] ->
-     s_log (run_gen load_next [0;0;0;0;0;0;0] (set_proc st1 0 p1)) = s_log st ++ [created_frame st ar]).
-  { intros st1 Hl Hf Hm p1 Hp.
+     let fin := run_gen load_next [0;0;0;0;0;0;0] (set_proc st1 0 p1) in
+     s_log fin = s_log st ++ [created_frame st ar] /\ s_next fin = s_next st /\ s_mu fin = None
+     /\ s_fresh fin = s_fresh st + 1 + 1 /\ s_tcnt fin = s_tcnt st /\ s_tmu fin = s_tmu st).
+  { intros st1 Hl Hf Hm Hn Htc Htm p1 Hp fin. subst fin.
     rewrite run_cons. erewrite step0; [| cbn [set_proc s_procs]; apply upd_same | exact Hp]. cbn [exec_m_gen set_proc s_mu]. rewrite Hm.
     stp. stp. cbn [pop p_child pop_same].
     stp. cbn [pop p_last]. stp. stp. cbn [pop pop_same p_child]. stp.
-    cbn [run_gen set_proc set_store s_log mk_frame s_fresh]. rewrite Hl, Hf. reflexivity. }
+    cbn [run_gen set_proc set_store s_log s_next s_mu s_tcnt s_tmu mk_frame s_fresh]. rewrite Hl, Hf, Hn, Htc, Htm.
+    split; [reflexivity|]. split; [reflexivity|]. split; [unfold release; rewrite N.eqb_refl; reflexivity|].
+    repeat split; reflexivity. }
   destruct res; apply K; try reflexivity; try exact Hmu.
 Qed.
+
+Lemma exec_lineage_save_failed st c ar : s_mu st = None ->
+  s_log (exec ([MTarget c; MRead] ++ create_save_failed ar) st) = s_log st ++ [created_frame st ar].
+Proof. intro H. exact (proj1 (exec_lineage_save_failed_full st c ar H)). Qed.
 
 Lemma skipn_length_app {A} (l x : list A) : skipn (length l) (l ++ x) = x.
 Proof. induction l as [|a l IH]; [reflexivity|]. cbn [length app skipn]. exact IH. Qed.
@@ -159,10 +173,12 @@ Proof. unfold created_in, is_etype, created_frame. cbn. rewrite N.eqb_refl. spli
 
 (* the store invariant holds again after the failed call: every theorem about what runs afterwards (c01_valid_all_schedules,
    c01_restart, ..) applies to the store a failed index save leaves *)
-Theorem sinv_after_create_save_failed st ar :
-  SInv st -> s_mu st = None -> SInv (exec (create_save_failed ar) st).
+Lemma sinv_after_one_created_frame st st' ar :
+  SInv st ->
+  s_log st' = s_log st ++ [created_frame st ar] -> s_next st' = s_next st -> s_fresh st' = s_fresh st + 1 + 1 ->
+  s_tcnt st' = s_tcnt st -> s_tmu st' = s_tmu st -> SInv st'.
 Proof.
-  intros [Hv Hn Hf Ht] Hmu. destruct (exec_create_save_failed st ar Hmu) as (El & En & _ & Ef & Etc & Etm).
+  intros [Hv Hn Hf Ht] El En Ef Etc Etm.
   assert (Hk : fkind (created_frame st ar) = KContinuity) by reflexivity.
   destruct (Hf (s_fresh st) ltac:(lia)) as [Hc0 Hn0].
   assert (Hother : forall k s, (k, s) <> (KContinuity, s_fresh st) -> next_of k s (s_log st ++ [created_frame st ar]) = next_of k s (s_log st)).
@@ -175,6 +191,24 @@ Proof.
   - intros c Hc. rewrite Ef in Hc. unfold cnext. rewrite El, En. rewrite Hother by (intro E; inversion E; lia).
     apply Hf. lia.
   - intros t Htm. rewrite Etm in Htm. rewrite Etc. unfold tnext. rewrite El, Hother by discriminate. apply Ht. exact Htm.
+Qed.
+
+Theorem sinv_after_create_save_failed st ar :
+  SInv st -> s_mu st = None -> SInv (exec (create_save_failed ar) st).
+Proof.
+  intros HS Hmu. destruct (exec_create_save_failed st ar Hmu) as (El & En & _ & Ef & Etc & Etm).
+  exact (sinv_after_one_created_frame st _ ar HS El En Ef Etc Etm).
+Qed.
+
+(* branch / handoff of ANY thread c (known or not, sidecar in any condition) whose child's creation cannot save the index *)
+Theorem sinv_after_lineage_save_failed st c ar :
+  SInv st -> s_mu st = None ->
+  SInv (exec ([MTarget c; MRead] ++ create_save_failed ar) st)
+  /\ s_log (exec ([MTarget c; MRead] ++ create_save_failed ar) st) = s_log st ++ [created_frame st ar]
+  /\ s_mu (exec ([MTarget c; MRead] ++ create_save_failed ar) st) = None.
+Proof.
+  intros HS Hmu. destruct (exec_lineage_save_failed_full st c ar Hmu) as (El & En & Em & Ef & Etc & Etm).
+  split; [exact (sinv_after_one_created_frame st _ ar HS El En Ef Etc Etm)|]. split; assumption.
 Qed.
 
 (* ensure_default on a store that knows no thread of its workspace (not in memory, not in the log), index.json unwritable:
